@@ -470,7 +470,7 @@ def latmio_und(R, itr, D=None, seed=None):
                     break
             att += 1
 
-    Rlatt = R[np.ix_(ind_rp[::-1], ind_rp[::-1])]
+    Rlatt = R[np.ix_(np.argsort(ind_rp), np.argsort(ind_rp))]
     return Rlatt, R, ind_rp, eff
 
 
